@@ -42,6 +42,9 @@ type Tool17 struct {
 	Fault  string `json:"fault,omitempty"` // "", err, streamerr, panic
 	Empty  bool   `json:"empty,omitempty"` // the tool's whole output is the empty string
 	Mark   string `json:"mark,omitempty"`  // prefix of the output (tells tool lists passed per call apart)
+	// Ctx: the tool honours its context: once released it gives a cancellation a moment to arrive and returns
+	// ctx.Err() if it does.  Nobody in these cases cancels the caller's context, so such a tool behaves like any other.
+	Ctx bool `json:"ctx,omitempty"`
 }
 
 // Args17 is the argument type of tools built with components/tool/utils (kind "utils"): a pointer to it is
@@ -109,8 +112,24 @@ func (b *baseTool17) gate(ctx context.Context) string {
 	return id
 }
 
+// cancelled (ctx-aware tools only): the context's error if a cancellation arrives within a moment.
+func (b *baseTool17) cancelled(ctx context.Context) error {
+	if !b.d.Ctx {
+		return nil
+	}
+	select {
+	case <-ctx.Done():
+		return ctx.Err()
+	case <-time.After(time.Millisecond):
+		return nil
+	}
+}
+
 func (b *baseTool17) run(ctx context.Context, args string) (string, error) {
 	id := b.gate(ctx)
+	if err := b.cancelled(ctx); err != nil {
+		return "", err
+	}
 	switch b.d.Fault {
 	case "err":
 		return "", fmt.Errorf("wrapped: %w", &toolErr{b.d.Name, id})
@@ -122,6 +141,9 @@ func (b *baseTool17) run(ctx context.Context, args string) (string, error) {
 
 func (b *baseTool17) stream(ctx context.Context, args string) (*schema.StreamReader[string], error) {
 	id := b.gate(ctx)
+	if err := b.cancelled(ctx); err != nil {
+		return nil, err
+	}
 	switch b.d.Fault {
 	case "err":
 		return nil, fmt.Errorf("wrapped: %w", &toolErr{b.d.Name, id})
@@ -171,6 +193,9 @@ func mkTool(d Tool17) tool.BaseTool {
 		return toolutils.NewTool(&schema.ToolInfo{Name: d.Name, Desc: "t"}, func(ctx context.Context, in *Args17) (string, error) {
 			id := (&baseTool17{d}).gate(ctx)
 			runtime.Gosched()
+			if err := (&baseTool17{d}).cancelled(ctx); err != nil {
+				return "", err
+			}
 			switch d.Fault {
 			case "err":
 				return "", fmt.Errorf("wrapped: %w", &toolErr{d.Name, id})
@@ -191,7 +216,7 @@ func genC17(t *rapid.T) CaseC17 {
 	c := CaseC17{}
 	nt := rapid.IntRange(3, 5).Draw(t, "nTools")
 	for i := 0; i < nt; i++ {
-		d := Tool17{Name: fmt.Sprintf("tool%d", i), Kind: []string{"inv", "str", "both", "utils"}[rapid.IntRange(0, 3).Draw(t, "kind")], Chunks: rapid.IntRange(1, 4).Draw(t, "chunks"), Empty: rapid.IntRange(0, 5).Draw(t, "empty") == 0}
+		d := Tool17{Name: fmt.Sprintf("tool%d", i), Kind: []string{"inv", "str", "both", "utils"}[rapid.IntRange(0, 3).Draw(t, "kind")], Chunks: rapid.IntRange(1, 4).Draw(t, "chunks"), Empty: rapid.IntRange(0, 5).Draw(t, "empty") == 0, Ctx: rapid.IntRange(0, 2).Draw(t, "ctxAware") == 0}
 		if rapid.IntRange(0, 7).Draw(t, "fault") == 0 {
 			d.Fault = []string{"err", "err", "streamerr", "panic"}[rapid.IntRange(0, 3).Draw(t, "faultKind")]
 		}
